@@ -112,7 +112,7 @@ impl Prop for C14 {
         for p in ["left-end", "right-end", "interior-knot", "just-above-knot", "just-below-knot", "midpoint", "random"] {
             v.push(format!("point:{}", p));
         }
-        for s in ["repeated-interior-knot", "no-interior-knots", "m>=k", "m=k-1", "outside-support", "array-form", "scale:tiny-domain", "scale:huge-domain"] {
+        for s in ["repeated-interior-knot", "no-interior-knots", "m>=k", "m=k-1", "outside-support", "array-form", "python-layer", "scale:tiny-domain", "scale:huge-domain"] {
             v.push(s.to_string());
         }
         v
@@ -239,6 +239,48 @@ impl Prop for C14 {
                     if bad {
                         ctx.violation("C14|array-form-length", json!({"k": k, "t": t, "i": i, "m": m, "returned": got.len(), "points": xs.len()}));
                         return;
+                    }
+                }
+            }
+        }
+        // the Python-facing layer: PPSplineF64.bsplev / bspldnev over arrays of points and the module-level
+        // bsplev_single / bspldnev_single - the numbers of the core single-point evaluators, bit for bit
+        {
+            let py = rateslib::splines::PPSplineF64::verif_py_new(k, t.clone(), None);
+            let xs: Vec<f64> = pts.iter().map(|(x, _)| *x).collect();
+            for i in 0..n {
+                for m in 0..=k + 1 {
+                    let got = guarded(|| (py.verif_py_bspldnev(xs.clone(), i, m), if m == 0 { py.verif_py_bsplev(xs.clone(), i).ok() } else { None }));
+                    ctx.eval(xs.len() as u64);
+                    ctx.asserted(xs.len() as u64);
+                    ctx.class("python-layer");
+                    match got {
+                        Caught::Ok((Ok(v), v0)) => {
+                            for (j, x) in xs.iter().enumerate() {
+                                let single = if m == 0 { bsplev_single_f64(x, i, &k, &t, None) } else { bspldnev_single_f64(x, i, &k, &t, m, None) };
+                                let free = if m == 0 { rateslib::verif::verif_py_bsplev_single(*x, i, k, t.clone(), None) } else { rateslib::verif::verif_py_bspldnev_single(*x, i, k, t.clone(), m, None) };
+                                let same = |a: f64, b: f64| a.to_bits() == b.to_bits() || a == b;
+                                if v.len() != xs.len() || !same(v[j], single) || !same(free, single) || v0.as_ref().map_or(false, |w| w.len() != xs.len() || !same(w[j], single)) {
+                                    ctx.violation(
+                                        &format!("C14|python-layer-differs|{}|{}", pts[j].1, if m == 0 { "value".to_string() } else { format!("derivative-{}", m.min(3)) }),
+                                        json!({"case": case(*x, i, m), "point_class": pts[j].1, "PPSplineF64.bspldnev": v.get(j), "PPSplineF64.bsplev": v0.as_ref().and_then(|w| w.get(j)), "module_level_single": free, "core_single_point_form": single}),
+                                    );
+                                    return;
+                                }
+                            }
+                        }
+                        Caught::Ok(_) => {
+                            ctx.violation("C14|python-layer|error", json!({"k": k, "t": t, "i": i, "m": m}));
+                            return;
+                        }
+                        Caught::Panic { loc, msg } => {
+                            if is_harness_location(&loc) {
+                                ctx.harness_error(format!("{} {}", loc, msg));
+                            } else {
+                                ctx.violation(&format!("C14|panic|python-layer|{}", short_loc(&loc)), json!({"k": k, "t": t, "i": i, "m": m, "message": msg}));
+                            }
+                            return;
+                        }
                     }
                 }
             }
